@@ -21,6 +21,7 @@ RULE = (
     "Non-trivial: the CB run made >= 1 backward jump or loop iteration and took conditional branches in both directions, or "
     "executed a GOSUB; distinct by sha1 of the AST"
 )
+RULE += ' Also: every ON..GOTO / ON..GOSUB list of 1-13 targets (1-40 thorough; ascending, descending, with a repeated target) is run under every selector value 0..len+1; one program in seven is large (up to 40 lines, nesting one level deeper, ON lists of up to 17 targets with reaching selectors, five-digit line numbers); loop variables are names that are prefixes of one another; ON selectors may be converted functions; one case in three in a drawn layout. A refusal of a generated program counts as a violation.'
 ASSUMPTIONS = [
     "CB-3/CB-4/CB-5 and B09-3/B09-4 of DESIGN.md section 3 (IF/ELSE pairing and skipping, FOR/NEXT semantics, ON..GO fall-through)",
     "both interpreters stop after 20 000 / 60 000 statements; a source that exceeds the budget is skipped, a translation that "
